@@ -61,14 +61,34 @@ every real tree —, searching the `node` pattern in **what `flatten_ast` return
 types gives, in pre-order, exactly one occurrence per node of the tweaked tree that carries a line number,
 with its type and its own line. -/
 theorem C01_node_labels_pipeline (cfg : Cfg) (s : HashState) (t : Val) (ty : Str) (e : Bool) (r : Str)
-    (ln : Option Nat) (fs : List (Str × Val)) (ht : onTheFly cfg t = .node ty e r ln fs)
-    (hwf : wfStages6 (onTheFly cfg t) = true) (hok : treeOk (stage6 (onTheFly cfg t)) = true) :
+    (ln : Option Nat) (fs : List (Str × Val)) (ht : prep cfg t = .node ty e r ln fs)
+    (hwf : wfStages6 (prep cfg t) = true) (hok : treeOk (stage6 (prep cfg t)) = true) :
     ((nodeStarts (flattenAst cfg s t).1).filter
-        (fun x => (posTypes (stage6 (onTheFly cfg t))).contains x.1)).map
+        (fun x => (posTypes (stage6 (prep cfg t))).contains x.1)).map
         (fun x => (x.1, (parsePos? x.2).map (·.1))) =
-      (positionedNodes (stage6 (onTheFly cfg t))).map (fun x => (x.1, some x.2)) := by
+      (positionedNodes (stage6 (prep cfg t))).map (fun x => (x.1, some x.2)) := by
   rw [Paroxy.Props.C15.C15_flatten_tweaked cfg s t ty e r ln fs ht hwf]
-  exact C01_node_labels (onTheFly cfg t) (stage6 (onTheFly cfg t)) hok
+  exact C01_node_labels (prep cfg t) (stage6 (prep cfg t)) hok
+
+/-- Non-vacuity with a string constant containing `_pos=` (the former finding F17, `s = '_pos=3:1-:2'`, as
+exported): the hypotheses of `C01_node_labels_pipeline` hold, the value is dumped escaped. -/
+def samplePosString : Val :=
+  .node cs!"Module" false [] none
+    [(cs!"body", .list false
+      [.node cs!"Assign" false [] (some 1)
+        [(cs!"targets", .list false [.node cs!"Name" true cs!"Name(id='s')" (some 1)
+            [(cs!"id", .scalar cs!"'s'" .str), (cs!"ctx", .node cs!"Store" false [] none [])]]),
+         (cs!"value", .node cs!"Constant" true cs!"Constant(value='_pos=3:1-:2')" (some 1)
+            [(cs!"value", .scalar cs!"'_pos=3:1-:2'" .str), (cs!"kind", .scalar cs!"None" .nameConst)]),
+         (cs!"type_comment", .scalar cs!"None" .nameConst)]]),
+     (cs!"type_ignores", .list false [])]
+
+example : wfStages6 (prep implCfg samplePosString) = true ∧
+    treeOk (stage6 (prep implCfg samplePosString)) = true := by decide
+example : positionedNodes (stage6 (prep implCfg samplePosString)) =
+    [(cs!"Assign", 1), (cs!"Name", 1), (cs!"Str", 1)] := by decide
+example : cs!"/body/1/assignvalue/s=_pos\\=3:1-:2" ∈ dumpP id [] [] (stage6 (prep implCfg samplePosString)) := by
+  decide
 
 /-- Non-vacuity: a small module `x = 1` (already tweaked) is well formed, and the theorem's right-hand
 side lists its three positioned nodes. -/
@@ -101,10 +121,11 @@ theorem C01_binding_start (ty p2 : Str) (n : Nat) (addr : List Nat) (b : Str × 
     simp only [hp, Option.map_some, Option.some.injEq] at h
     rw [← h]; exact ⟨rfl, rfl⟩
 
-/-- **C01 (same text).** Tagging parses exactly `program.source` — the text that `collect` stores and
-the listings number: two program records with the same stored source get the same `node` bindings,
-whatever the parser does and whatever their other fields are. -/
-theorem C01_same_text (parse : Str → Option Val) (cfg : Cfg) (p q : ProgramRec)
+/-- "Same text" clause of the property (tagging parses exactly the source that Paroxython stores and
+shows): in this model it is a mere congruence — `tagNodes` reads `program.source` only — hence an
+`example`, not a theorem. The clause is **exercised only**: harness/c01.py records the text given to
+`ast.parse` during `TagDatabase(...)` and compares it with `programs_infos[path]["source"]`. -/
+example (parse : Str → Option Val) (cfg : Cfg) (p q : ProgramRec)
     (h : storedSource p = storedSource q) : tagNodes parse cfg p = tagNodes parse cfg q := by
   simp only [storedSource] at h
   simp [tagNodes, h]
